@@ -228,13 +228,6 @@ theorem or_gadget (σ : V → Rat) (z : V) (xs : List V)
 
 /-! ### XOR block of major.py (`CXOR`): five constraints on `VXOR`, `VNEW`, `VOR` -/
 
-def xorCons (x n o : V) : List (LinCon V) :=
-  [⟨[(1, x), (-1, n), (-1, o)], .le, 0⟩,          -- VXOR <= VNEW + VOR
-   ⟨[(1, x), (1, n), (1, o)], .le, 2⟩,            -- VXOR <= 2 - VNEW - VOR
-   ⟨[(1, x), (-1, n), (1, o)], .ge, 0⟩,           -- VXOR >= VNEW - VOR
-   ⟨[(1, x), (1, n), (-1, o)], .ge, 0⟩,           -- VXOR >= VOR - VNEW
-   ⟨[(1, x)], .ge, 1⟩]                            -- VXOR >= 1
-
 theorem xor_gadget (σ : V → Rat) (x n o : V)
     (hx : IsBin (σ x)) (hn : IsBin (σ n)) (ho : IsBin (σ o)) :
     (∀ c ∈ xorCons x n o, c.holds σ) ↔ (σ x = 1 ∧ σ n + σ o = 1) := by
